@@ -4,6 +4,7 @@ import (
 	"fmt"
 	"go/token"
 	"go/types"
+	"math/big"
 	"strings"
 
 	"golang.org/x/tools/go/ssa"
@@ -36,6 +37,12 @@ func (vc *VC) execCall(fx *FuncCtx, fr *Frame, st *State, c *ssa.CallCommon, ins
 
 func (vc *VC) callValue(fx *FuncCtx, st *State, fv Val, args []Val, c *ssa.CallCommon, rt types.Type, instr ssa.Instruction) Val {
 	f, ok := fv.(*FuncV)
+	if !ok && c != nil && c.Value != nil {
+		if nt, isNamed := types.Unalias(c.Value.Type()).(*types.Named); isNamed && nt.Obj().Pkg() != nil && nt.Obj().Pkg().Path() == "context" && nt.Obj().Name() == "CancelFunc" {
+			// cancelling a context has no effect on repository state
+			return nil
+		}
+	}
 	if !ok {
 		vc.unmod["dynamic call of unknown function value in "+funcDisplayName(fx.fn)] = true
 		return vc.defaultCall(st, "dynamic call", nil, args, rt, true)
@@ -90,7 +97,7 @@ func isRepoFunc(fn *ssa.Function) bool {
 
 func (vc *VC) callFunction(fx *FuncCtx, st *State, fn *ssa.Function, args []Val, bound []Val, rt types.Type, instr ssa.Instruction) Val {
 	// synthetic wrappers (bound methods, pointer-receiver wrappers) are executed: they are tiny
-	if fc := vc.prog.ContractForFunc(fn); fc != nil && fn.Synthetic == "" && !fc.Flags["inline"] {
+	if fc := vc.prog.ContractForFunc(fn); fc != nil && (fn.Synthetic == "" || len(fn.Blocks) == 0) && !fc.Flags["inline"] {
 		if fn != vc.fn || len(vc.inlineStk) > 0 || true {
 			return vc.applyContract(fx, st, fc, fn.Signature, args, rt, funcDisplayName(fn))
 		}
@@ -291,7 +298,8 @@ func shortName(s string) string {
 }
 
 // library value types that are never modified after construction
-var immutableLibTypes = []string{"encoding.base64.Encoding", "encoding.base32.Encoding", "log.Logger", "time.Location", "regexp.Regexp"}
+var immutableLibTypes = []string{"encoding.base64.Encoding", "encoding.base32.Encoding", "log.Logger", "time.Location", "regexp.Regexp",
+	"github.com.jmoiron.sqlx.Tx", "github.com.jmoiron.sqlx.DB", "database.sql.Tx", "database.sql.DB", "github.com.jmoiron.sqlx.Stmt", "database.sql.Stmt"}
 
 func (vc *VC) havocArg(st *State, a Val, t types.Type, why string) {
 	if pt, ok := under(t).(*types.Pointer); ok {
@@ -337,9 +345,6 @@ func (vc *VC) havocArg(st *State, a Val, t types.Type, why string) {
 
 func (vc *VC) havocAll(st *State, why string) {
 	for _, name := range vc.reg.sorted() {
-		if strings.HasPrefix(name, "ghost:") && vc.prog.ghost(strings.TrimPrefix(name, "ghost:")) != nil {
-			continue
-		}
 		ki := vc.reg.m[name]
 		st.heap[name] = Fresh("hv:"+name, ki.Sort)
 	}
@@ -457,25 +462,7 @@ func (vc *VC) applyContract(fx *FuncCtx, st *State, fc *FuncContract, sig *types
 		vc.oblige(st, lbl, "call-pre", g, tagsOf(vc.fc), r.Src)
 	}
 	pre := st.clone()
-	// frame
-	if fc.ModAll {
-		vc.havocAll(st, "modifies * of "+callee)
-	}
-	for _, m := range fc.Modifies {
-		env0 := &SpecEnv{vc: vc, st: pre, old: pre, vars: env.vars, pkg: pkg}
-		pl, all, err := env0.evalLoc(m)
-		if err != nil {
-			st.setTaint("modifies clause of " + callee + ": " + err.Error())
-			continue
-		}
-		if all {
-			st.havocPrefix(pl.Key, "modifies of "+callee)
-			vc.noteHavoc(st, pl.Key)
-		} else {
-			st.havocPlace(pl)
-		}
-	}
-	// results
+	// results (fresh; locations named in the frame may depend on them, e.g. the typestate of a returned object)
 	var res []Val
 	results := sig.Results()
 	for i := 0; i < results.Len(); i++ {
@@ -484,6 +471,66 @@ func (vc *VC) applyContract(fx *FuncCtx, st *State, fc *FuncContract, sig *types
 			vc.assume(st, f)
 		}
 		res = append(res, fv)
+	}
+	fvars := map[string]*SV{}
+	for n, v := range env.vars {
+		fvars[n] = v
+	}
+	for i := range res {
+		if i < len(fc.Results) {
+			fvars[fc.Results[i]] = &SV{V: res[i], T: results.At(i).Type()}
+		}
+	}
+	// frame
+	if fc.ModAll {
+		vc.havocAll(st, "modifies * of "+callee)
+	}
+	var mods []*SX
+	for _, m := range fc.Modifies {
+		// *xs[*] where xs is a slice of interfaces holding pointers: the pointee of every element
+		if m.K == "un" && m.Op == "*" && m.A[0].K == "idx" && m.A[0].A[1].K == "id" && m.A[0].A[1].Name == "#all" {
+			env0 := &SpecEnv{vc: vc, st: pre, old: pre, vars: fvars, pkg: pkg}
+			expanded := false
+			if sv, err := env0.eval(m.A[0].A[0]); err == nil {
+				if sl, ok := env0.value(sv).(*SliceV); ok && sl.Len.IsConst && sl.Len.Int.IsInt64() && sl.Len.Int.Int64() <= 16 {
+					for i := int64(0); i < sl.Len.Int.Int64(); i++ {
+						mods = append(mods, &SX{K: "un", Op: "*", A: []*SX{{K: "idx", A: []*SX{m.A[0].A[0], {K: "int", Val: big.NewInt(i)}}}}})
+					}
+					expanded = true
+				}
+			}
+			if !expanded {
+				vc.havocAll(st, "modifies through a slice of interfaces of unknown length, "+callee)
+			}
+			continue
+		}
+		mods = append(mods, m)
+	}
+	for _, m := range mods {
+		env0 := &SpecEnv{vc: vc, st: pre, old: pre, vars: fvars, pkg: pkg}
+		pl, all, err := env0.evalLoc(m)
+		if err != nil {
+			st.setTaint("modifies clause of " + callee + ": " + err.Error())
+			continue
+		}
+		if all && pl.Key == "*" {
+			vc.havocAll(st, "modifies through an interface of unknown dynamic type, "+callee)
+		} else if all && pl.Kind == PGlobal && strings.HasPrefix(pl.Key, "ghost:") {
+			st.havocPlace(pl)
+		} else if all {
+			st.havocPrefix(pl.Key, "modifies of "+callee)
+			vc.noteHavoc(st, pl.Key)
+		} else {
+			st.havocPlace(pl)
+		}
+	}
+	if fc.External {
+		// values produced by a library never have a dynamic type defined in this repository
+		for _, r := range res {
+			if iv, ok := r.(*IfaceV); ok {
+				vc.extIfaceTags = append(vc.extIfaceTags, iv.Tag)
+			}
+		}
 	}
 	env2 := &SpecEnv{vc: vc, st: st, old: pre, vars: map[string]*SV{}, pkg: pkg}
 	for n, v := range env.vars {
